@@ -558,6 +558,64 @@ Definition run_wf (st : wf) (kw : list (string * Z)) : wf * res :=
           end
   end.
 
+(* ---- pulling one child: child.pull() / child() ---------------------------------------------
+   Node.run_data_tree: the upstream closure of the child (itself included) gets TEMPORARY labels
+   (label ++ str(id(node)); any suffix no label can carry does here), the parent workflow is run
+   with the upstream-most nodes as starters and the pulled child unhooked, labels are restored, the
+   parent forgets its remembered inputs; then the child fetches and runs.  During the parent's
+   inner run its panels are built from the temporary labels, so its cache test compares THAT
+   value dict with the remembered one: on a hit nothing upstream runs.  child() first lets the
+   workflow fetch its own (exposed) inputs.  Modelled where the driver performs it: acyclic data,
+   both panels readable, and for child() no connected channel exposed among the inputs (there the
+   workflow's own data tree reaches into its children and topology raises ValueError). *)
+Definition fetch_stored (st : wf) (iid : nat) : Z :=
+  match find (fun o => match val st o with Some _ => true | None => false end) (map snd (filter (fun p => Nat.eqb (fst p) iid) (w_conns st))) with
+  | Some o => stored st o
+  | None => stored st iid
+  end.
+
+Definition fetch_ids (st : wf) (ids : list nat) : wf :=
+  set_vals st (fold_left (fun acc i => upd Nat.eqb i (fetch_stored st i) acc) ids (w_vals st)).
+
+Definition in_tree (st : wf) (root : string) (c : child) : bool :=
+  String.eqb root (c_label c) || reaches (List.length (w_children st)) (edges st) root (c_label c).
+
+Definition run_self (st : wf) (c : child) : wf :=
+  let st1 := fetch_ids st (map snd (c_ins c)) in
+  let outs := k_fun (kind_spec (c_kind c)) (map (fun e => stored st1 (snd e)) (c_ins c)) in
+  set_vals st1 (snd (fold_left (fun acc e => (S (fst acc), upd Nat.eqb (snd e) (zn outs (fst acc)) (snd acc)))
+                               (c_outs c) (0, w_vals st1))).
+
+Definition pull (st : wf) (label : string) (with_parent : bool) : wf * res :=
+  match find_child label (w_children st) with
+  | None => (st, RExc NoRef)
+  | Some c =>
+      match build_io st DIn, build_io st DOut with
+      | Some pin, Some _ =>
+          if cyclic st || (with_parent && exposes_connected st pin) then (st, RExc Skip)
+          else
+            let st0 := if with_parent then fetch_ids st (map snd pin) else st in
+            let ups := filter (fun x => negb (String.eqb label (c_label x)) && in_tree st0 label x)
+                              (w_children st0) in
+            let st1 :=
+              match ups with
+              | [] => st0
+              | _ =>
+                  let tmp := set_children st0
+                               (map (fun x => if in_tree st0 label x then relabel x (c_label x ++ "#") else x)
+                                    (w_children st0)) in
+                  let hit := match build_io tmp DIn, w_cache st0 with
+                             | Some p, Some cd => dict_eqb (value_dict st0 p) cd
+                             | _, _ => false
+                             end in
+                  if hit then st0
+                  else set_vals st0 (fold_left (exec_child (S (List.length (w_children st0))) st0) ups (w_vals st0))
+              end in
+            (set_cache (run_self st1 c) None, ROk)
+      | _, _ => (st, RExc Skip)
+      end
+  end.
+
 (* ---- histories ------------------------------------------------------------------------------ *)
 Inductive op :=
 | OAdd (kind : nat) (label : string)
@@ -577,7 +635,8 @@ Inductive op :=
 | OMapUpdate (d : dir) (ps : list (string * option string))
 | OOrphan (label : string)
 | OMoveAway (label : string)
-| OSetInputs (kw : list (string * Z)).
+| OSetInputs (kw : list (string * Z))
+| OPull (label : string) (with_parent : bool).
 
 Definition step (st : wf) (o : op) : wf * res :=
   match o with
@@ -599,6 +658,7 @@ Definition step (st : wf) (o : op) : wf * res :=
   | OOrphan l => leave st l
   | OMoveAway l => leave st l
   | OSetInputs kw => set_inputs st kw
+  | OPull l wp => pull st l wp
   end.
 
 Fixpoint run_ops (st : wf) (ops : list op) : wf :=
